@@ -2,6 +2,7 @@ package streamflow
 
 import (
 	"fmt"
+	"sort"
 
 	"github.com/rs/zerolog/log"
 )
@@ -119,6 +120,22 @@ func detectCircularConnections(flowDir *FlowDirection) error {
 			return fmt.Errorf("circular connection detected - processor '%s'", proc)
 		}
 		log.Trace().Msgf("No cycle detected for processor %s", proc)
+	}
+
+	// The walk does not only start at the root: when a request processor answers
+	// the request itself, the response walk resumes from the response node of the
+	// same processor. Every node is therefore a possible entry point and a cycle
+	// that is unreachable from the root must be rejected as well.
+	processorKeys := make([]string, 0, len(flowDir.nodes))
+	for processorKey := range flowDir.nodes {
+		processorKeys = append(processorKeys, processorKey)
+	}
+	sort.Strings(processorKeys)
+	for _, processorKey := range processorKeys {
+		visitedByCondition := make(map[string]map[string]bool)
+		if !dfsDetectCycles(flowDir.nodes[processorKey], visitedByCondition, processorKey, "") {
+			return fmt.Errorf("circular connection detected - processor '%s'", processorKey)
+		}
 	}
 
 	return nil
